@@ -24,6 +24,8 @@ struct BaseCase {
     body: Vec<u8>,
     /// for the form: length of the first boundary line (incl. CRLF)
     first_line: usize,
+    /// cut points are taken from this offset on (0 = anywhere); the variants of a base explore the region they vary
+    cuts_from: usize,
 }
 
 fn bases() -> Vec<BaseCase> {
@@ -34,21 +36,21 @@ fn bases() -> Vec<BaseCase> {
         let body = b"0123456789abcdef".to_vec();
         let mut r = Req::new("PUT", "/bkt/plain").header("host", HOST).header("content-length", "16");
         sign_v4_header(&mut r, SK, &scope, DATE, "UNSIGNED-PAYLOAD", &["content-length"]);
-        v.push(BaseCase { kind: "plain-streamed-put", req: r, body, first_line: 0 });
+        v.push(BaseCase { kind: "plain-streamed-put", req: r, body, first_line: 0, cuts_from: 0 });
     }
     // (2) buffered XML, digest-signed
     {
         let body = br#"<?xml version="1.0" encoding="UTF-8"?><Delete xmlns="http://s3.amazonaws.com/doc/2006-03-01/"><Object><Key>a&amp;b</Key></Object><Object><Key>c d</Key><VersionId>v1</VersionId></Object><Quiet>true</Quiet></Delete>"#.to_vec();
         let mut r = Req::new("POST", "/bkt?delete").header("host", HOST).header("content-length", &body.len().to_string()).header("content-md5", "AAAAAAAAAAAAAAAAAAAAAA==");
         sign_v4_header(&mut r, SK, &scope, DATE, &sha256_hex(&body), &["content-length", "content-md5"]);
-        v.push(BaseCase { kind: "buffered-xml", req: r, body, first_line: 0 });
+        v.push(BaseCase { kind: "buffered-xml", req: r, body, first_line: 0, cuts_from: 0 });
     }
     // (3) chunk-signed upload, 3 data chunks + final
     {
         let pieces = vec![b"chunk-one\r\n".to_vec(), b"2".to_vec(), b"third;chunk-signature=".to_vec()];
         let total: usize = pieces.iter().map(Vec::len).sum();
         let up = c08::upload("chunked", &pieces, Some(total), DATE);
-        v.push(BaseCase { kind: "chunk-signed-upload", req: up.req.clone(), body: c08::encoded(&up.chunks), first_line: 0 });
+        v.push(BaseCase { kind: "chunk-signed-upload", req: up.req.clone(), body: c08::encoded(&up.chunks), first_line: 0, cuts_from: 0 });
     }
     // (4) POST form; file content with CR/LF runs and proper prefixes of the delimiter
     {
@@ -58,7 +60,28 @@ fn bases() -> Vec<BaseCase> {
         // CR/LF runs and proper prefixes of the delimiter "\r\n--bnd7MA4" (never the boundary string itself: no browser emits that)
         f.file = b"\r\n\r\r\n--\r\n--bnd7MA\r\n-\r\r\n--bnd7M\r\n--bnd7MA".to_vec();
         let (r, body) = f.request("/bkt", HOST);
-        v.push(BaseCase { kind: "post-form", req: r, body, first_line: f.boundary.len() + 4 });
+        v.push(BaseCase { kind: "post-form", req: r, body, first_line: f.boundary.len() + 4, cuts_from: 0 });
+        // the same form with file contents that end in the shapes a text file ends in (CR/LF right in front of the closing
+        // delimiter); cut points from just before the file part to the end of the body
+        let endings: &[(&str, &[u8])] = &[
+            ("post-form/file-ends-crlf", b"first line\r\nlast\r\n"),
+            ("post-form/file-ends-cr", b"abc\r"),
+            ("post-form/file-ends-crlfcrlf", b"a\r\n\r\n"),
+            ("post-form/file-ends-crlf-dash", b"a\r\n-"),
+            ("post-form/file-ends-crlf-dashdash", b"a\r\n--"),
+            ("post-form/file-is-a-cr-run", b"\r\r\r\r"),
+            ("post-form/file-is-crlf", b"\r\n"),
+            ("post-form/file-csv", b"a,b\r\n1,2\r\n\r\n3,4\r\n"),
+        ];
+        for (kind, content) in endings {
+            let mut g = form::signed_form("form key", policy, AK, SK, DATE, REGION, b"", &[("x-amz-meta-a", "v")]);
+            g.boundary = "bnd7MA4".to_owned();
+            g.file = content.to_vec();
+            let (r, body) = g.request("/bkt", HOST);
+            let tail = content.len() + g.boundary.len() + 8 + 24;
+            let cuts_from = body.len().saturating_sub(tail).max(1);
+            v.push(BaseCase { kind, req: r, body, first_line: g.boundary.len() + 4, cuts_from });
+        }
     }
     v
 }
@@ -136,6 +159,7 @@ fn insertions(frames: usize, m: usize) -> Vec<Vec<(usize, Ins)>> {
 
 /// every schedule with at most `k` deviations whose first cut is `first` (0 = no cut at all)
 fn for_each_schedule(n: usize, k: usize, first: usize, f: &mut dyn FnMut(&Schedule)) {
+    // (cut points after `first` only: the partition by first cut also restricts a variant's cuts to its window)
     fn rec(n: usize, k: usize, cuts: &mut Vec<usize>, f: &mut dyn FnMut(&Schedule)) {
         // emit with all insertion choices for the remaining budget (exactly 0..=k-c insertions)
         let frames = if n == 0 { 0 } else { cuts.len() + 1 };
@@ -239,6 +263,9 @@ pub fn run(ctx: &Ctx) -> (Acc, Report) {
         let b_ref = &*b;
         let _ = b_ref;
         par_cases(&mut acc, n.max(1) as u64, |a, first| {
+            if first != 0 && (first as usize) < b.cuts_from {
+                return;
+            }
             for_each_schedule(n, k, first as usize, &mut |s: &Schedule| {
                 let order = (s.cuts.len() * 1000 + s.ins.len() * 100) as u64 * 100_000 + s.cuts.first().copied().unwrap_or(0) as u64;
                 judge(a, s.id(), order, s.steps(&b.body), s.cuts.first().copied());
@@ -254,12 +281,17 @@ pub fn run(ctx: &Ctx) -> (Acc, Report) {
         }
         pend.push(Step::Pending);
         judge(&mut acc, "all-1-byte+pending-everywhere".into(), u64::MAX / 2, pend, Some(1));
-        transitions += acc.counters.get("body_frames_delivered").copied().unwrap_or(0);
+        // uniform partitions: every frame size 1..=min(96, n) (many cut points at once, at every alignment the size produces)
+        for size in 2..=n.min(96) {
+            let steps: Vec<Step> = b.body.chunks(size).map(|c| Step::Data(c.to_vec())).collect();
+            judge(&mut acc, format!("uniform-frames-of-{size}"), u64::MAX / 4 + size as u64, steps, Some(size));
+        }
+        transitions = acc.counters.get("body_frames_delivered").copied().unwrap_or(0);
     }
     let states = acc.evals;
     let rep = Report {
         level: "model_checking",
-        rule: format!("4 request kinds (plain streamed PUT 16 B, buffered XML, chunk-signed upload, POST form with CR/LF runs and delimiter prefixes in the file); every transport schedule with at most {k} deviations from the default (deviation = a cut point of the body, an empty frame, or a Pending-then-wake inserted before any frame or before end-of-stream), plus the all-1-byte partition with and without Pending everywhere; each schedule is one complete execution of the real S3Service::call, compared with the default schedule. Distinct by schedule id."),
+        rule: format!("4 request kinds (plain streamed PUT 16 B, buffered XML, chunk-signed upload, POST form with CR/LF runs and delimiter prefixes in the file) + 8 variants of the form whose file ends in CR/LF shapes (cut points from the file part on); every transport schedule with at most {k} deviations from the default (deviation = a cut point of the body, an empty frame, or a Pending-then-wake inserted before any frame or before end-of-stream), plus the all-1-byte partition with and without Pending everywhere and every uniform partition into frames of 2..96 bytes; each schedule is one complete execution of the real S3Service::call, compared with the default schedule. Distinct by schedule id."),
         exhaustive: true,
         extra: json!({
             "states": states, "transitions": transitions.max(1), "traces_validated_against_impl": states,
